@@ -7,6 +7,7 @@ from typing import Any
 from tranpsim import pools
 from tranpsim.core import DEFAULT_CONFIG, HarnessError, ddmin, digest, known_for
 from tranpsim.framework import Engine
+from tranpsim.history import account_cache_writes, stale_transitive_files
 from tranpsim.persist import Project, canon_trace, resolve_fault
 
 KF_DEP = 'C06/dependency-edit-not-regenerated'
@@ -66,6 +67,7 @@ class C06Runner:
 		self.out_written: dict[str, dict[str, Any]] = {}  # module -> {'state','versions'} when its output was last written
 		self.known_ids = {k['id'] for k in known_for('C06')}
 		self.changed = False
+		self.cache_written: dict[str, dict[str, Any]] = {}
 
 	def bump(self, table: str, key: str, n: int = 1) -> None:
 		t = self.counters.setdefault(table, {})
@@ -139,6 +141,12 @@ class C06Runner:
 	def do_run(self, i: int, op: dict[str, Any]) -> None:
 		sc = self.proj.sc
 		force = bool(op.get('force'))
+		# Symbols files that are stale through a transitive dependency are C05's known finding; a healthy cache is this check's premise,
+		# so they are removed before the run (otherwise text written from stale symbols by an earlier run would be blamed on the header logic).
+		for rel in stale_transitive_files(self.pool, self.proj.state, self.cache_written, self.proj.cache_files()):
+			sc.remove(rel)
+			self.cache_written.pop(rel, None)
+			self.bump('probes', 'removed a symbols file stale through a transitive dependency (C05 finding)')
 		pre = sc.snapshot()
 		pre_out = self.proj.outputs()
 		# (b) the forced run from the same snapshot: the oracle
@@ -190,6 +198,7 @@ class C06Runner:
 				for k in rec_a.get('fault_fired', []):
 					self.bump('faults_fired', f"{k}x{fault.get('count', 1)}")
 		self.judge(i, op, force, rec_a, pre_out, out_b, by_module, needs, fault)
+		account_cache_writes(self.cache_written, rec_a.get('trace', []), self.proj.state, set(self.proj.cache_files()))
 		self.kinds_seq.append(('run -f' if force else 'run') + (f"+eacces{fault.get('count', 1)}" if fault else ''))
 		if self.changed:
 			self.distinct.add('>'.join(self.kinds_seq))
@@ -241,6 +250,7 @@ class C06Runner:
 		self.account_written(rec_a)
 
 	def account_written(self, rec: dict[str, Any]) -> None:
+		account_cache_writes(self.cache_written, rec.get('trace', []), self.proj.state, set(self.proj.cache_files()))
 		inv = {rel: m for m, rel in self.path_of.items()}
 		for ev in rec.get('trace', []):
 			if ev[0] == 'open-w' and ev[1] in inv:
